@@ -56,6 +56,9 @@ def check_elements(ctx, tr, res, pat_text, fn, absolute, trail, single, wit, mix
             ctx.disagree(f'glob result is not well-formed: {p}', dict(wit, element=e), classify(tr, pat_text, fn, e, p))
 
 
+DIR_FD_ZERO = [0]
+
+
 def run_modes(ctx, tr, pats, fn, flags, kw, wit, compare_roots=True):
     root = tr.root
     # (created before anything is globbed: a tree with a link to `..` shows the root's parent directory to the patterns)
@@ -95,6 +98,22 @@ def run_modes(ctx, tr, pats, fn, flags, kw, wit, compare_roots=True):
         results['dir_fd'] = f'raised {type(e).__name__}'
     finally:
         os.close(fd)
+    # the descriptor number 0 is a descriptor like any other (a directory opened after standard input was closed)
+    if DIR_FD_ZERO[0] % 4 == 0:
+        fd = os.open(root, os.O_RDONLY | os.O_DIRECTORY)
+        saved = os.dup(0)
+        try:
+            os.dup2(fd, 0)
+            try:
+                results['dir_fd = 0'] = G.glob(pats, flags=flags, dir_fd=0, **kw)
+            except Exception as e:  # noqa: BLE001
+                results['dir_fd = 0'] = f'raised {type(e).__name__}'
+        finally:
+            os.dup2(saved, 0)
+            os.close(saved)
+            os.close(fd)
+        ctx.count('dir_fd_zero_runs')
+    DIR_FD_ZERO[0] += 1
     cwd = os.getcwd()
     try:
         os.chdir(root)
